@@ -38,7 +38,7 @@ Definition recover_step (collected : list (list N)) (m : option smsg) : list (li
              if feqb O (fmul O (hm_of c) (hd (f0 O) pub)) sg
              then match strip c with
                   | Ok r => (collected', Emit r sg)
-                  | _ => (collected', SPanic)                   (* make([]byte, t) with t < 0 *)
+                  | _ => (collected', Cont)                     (* shorter than an address: reported, skipped *)
                   end
              else (collected', Cont)
            | Err => (collected', Cont)
